@@ -22,7 +22,8 @@
    Contents: G_go_floor_* (the Go floor), G_decompose / G_fraction_bits / G_build_float64* (section 1),
    G_lin_approx_log_* (2), G_lin_index_mono* (3), G_log_index_mono* (4, relative to a monotone
    math.Log), G_cub_* (5, full monotonicity of the cubic mapping, by a rounding-error analysis of the
-   Horner evaluation), G_lower_lin_* (6), examples by vm_compute.  Nothing is partial. *)
+   Horner evaluation), G_lower_lin_* (6: value for every finite t since the buildFloat64 repair, monotonicity of LowerBound,
+   refutation witness for the unrepaired code), examples by vm_compute.  Nothing is partial. *)
 From Coq Require Import Bool NArith ZArith Reals.
 From Flocq Require Import Core.Core IEEE754.BinarySingleNaN IEEE754.Binary IEEE754.Bits.
 From SK Require Import Base.Prelude Base.F64 Base.F64Proofs Mapping.Glue Mapping.GlueProofs.
@@ -91,7 +92,9 @@ Theorem G_int_of_f (a : f64) : int_of_f a = Ztrunc (val a).
 Proof. exact (int_of_f_R a). Qed.
 Print Assumptions G_int_of_f.
 
-(* buildFloat64 on its documented domain: -1022 <= e <= 1023, 1 <= s < 2 *)
+(* buildFloat64 (repaired: `if significandPlusOne >= 2 { exponent++; significandPlusOne /= 2 }` before
+   the saturation test; build_float64_raw is the function before that repair).
+   On the documented domain -1022 <= e <= 1023, 1 <= s < 2: *)
 Theorem G_build_float64 (e : Z) (s : f64) :
   -1022 <= e <= 1023 -> finite s -> (1 <= val s < 2)%R ->
   finite (build_float64 e s) /\
@@ -100,11 +103,42 @@ Theorem G_build_float64 (e : Z) (s : f64) :
 Proof. exact (build_float64_normal e s). Qed.
 Print Assumptions G_build_float64.
 
-(* the repaired saturation: whatever the significand *)
+(* below 2 the repair changes nothing; the unrepaired function has the same value on [1, 2) *)
+Theorem G_build_float64_lt2 (e : Z) (s : f64) :
+  finite s -> (val s < 2)%R -> build_float64 e s = build_float64_raw e s.
+Proof. exact (build_float64_lt2 e s). Qed.
+Print Assumptions G_build_float64_lt2.
+
+Theorem G_build_float64_raw (e : Z) (s : f64) :
+  -1022 <= e <= 1023 -> finite s -> (1 <= val s < 2)%R ->
+  finite (build_float64_raw e s) /\
+  val (build_float64_raw e s) = (val s * bpow radix2 e)%R /\
+  normal_pos (build_float64_raw e s).
+Proof. exact (build_float64_raw_normal e s). Qed.
+Print Assumptions G_build_float64_raw.
+
+(* the repaired case: a significand in [2, 4) still denotes s * 2^e (it is halved, exactly, into the
+   next binade) *)
+Theorem G_build_float64_two (e : Z) (s : f64) :
+  -1022 <= e + 1 <= 1023 -> finite s -> (2 <= val s < 4)%R ->
+  finite (build_float64 e s) /\
+  val (build_float64 e s) = (val s * bpow radix2 e)%R /\
+  normal_pos (build_float64 e s).
+Proof. exact (build_float64_two e s). Qed.
+Print Assumptions G_build_float64_two.
+
+(* saturation beyond the largest finite binade, for EVERY significand (NaN and infinities included:
+   whichever way the test s >= 2 goes, the exponent tested is e or e + 1, both > 1023) *)
 Theorem G_build_float64_saturates (e : Z) (s : f64) :
   1023 < e -> build_float64 e s = f64_pinf.
 Proof. exact (build_float64_saturates e s). Qed.
 Print Assumptions G_build_float64_saturates.
+
+(* ... and at e = 1023 when a finite significand is at least 2 *)
+Theorem G_build_float64_saturates_two (s : f64) :
+  finite s -> (2 <= val s)%R -> build_float64 1023 s = f64_pinf.
+Proof. exact (build_float64_saturates_two s). Qed.
+Print Assumptions G_build_float64_saturates_two.
 
 Theorem G_build_float64_roundtrip (x : f64) :
   normal_pos x -> build_float64 (expo x) (sig1 x) = x.
@@ -257,20 +291,29 @@ Print Assumptions G_cub_index_mono_bounded.
 (* 6. approximateInverseLog / LowerBound of the linear mapping         *)
 (* ------------------------------------------------------------------ *)
 (* premise on the oracle: math.Floor(t) is the float of the true floor.  With n = floor t in
-   [-1022, 1023] the result is 2^n * rnd (rnd (t - n) + 1), PROVIDED that significand is below 2.
-   The proviso is needed: for a tiny negative t, t - floor t rounds to 1 and the significand to 2.0,
-   whose fraction bits are 0, so buildFloat64 returns 2^n instead of a value next to 2^(n+1)
-   (G_ex_lower_tiny_negative below). *)
+   [-1022, 1023] the result is 2^n * rnd (rnd (t - n) + 1), for EVERY finite t: the significand
+   rnd (rnd (t - n) + 1) lies in [1, 2]; it is 2 only when |t| < 1 (so n + 1 <= 1023, no saturation),
+   and then the repaired buildFloat64 returns 2^(n+1) = 2 * 2^n.  (Before the repair this needed the
+   proviso "significand < 2": G_lower_lin_unrepaired_refuted below.) *)
 Theorem G_lower_lin_value (L : libm) (t : f64) :
   finite t -> finite (l_floor L t) -> val (l_floor L t) = IZR (Zfloor (val t)) ->
   -1022 <= Zfloor (val t) <= 1023 ->
-  (rnd (rnd (val t - IZR (Zfloor (val t))) + 1) < 2)%R ->
   finite (approx_inverse_log L MLin t) /\
   val (approx_inverse_log L MLin t) =
     (rnd (rnd (val t - IZR (Zfloor (val t))) + 1) * bpow radix2 (Zfloor (val t)))%R /\
   normal_pos (approx_inverse_log L MLin t).
 Proof. exact (approx_inverse_log_lin_R L t). Qed.
 Print Assumptions G_lower_lin_value.
+
+Theorem G_lower_lin_significand_range (r : R) :
+  (1 <= rnd (rnd (r - IZR (Zfloor r)) + 1) <= 2)%R.
+Proof. exact (lin_sig_range r). Qed.
+Print Assumptions G_lower_lin_significand_range.
+
+Theorem G_lower_lin_significand_lt_2 (t : f64) :
+  (1 <= Rabs (val t))%R -> (rnd (rnd (val t - IZR (Zfloor (val t))) + 1) < 2)%R.
+Proof. exact (lin_sig_lt_2_of_ge_1 t). Qed.
+Print Assumptions G_lower_lin_significand_lt_2.
 
 (* no rounding at all when t is a multiple of 2^-52 ... *)
 Theorem G_lower_lin_exact (L : libm) (t : f64) (k : Z) :
@@ -305,6 +348,45 @@ Theorem G_lower_lin_is (L : libm) (m : gmap) (i : Z) :
   gm_lower L m i = approx_inverse_log L MLin (fdiv (fsub (f_of_int i) (gm_off m)) (gm_mult m)).
 Proof. exact (gm_lower_lin_eq L m i). Qed.
 Print Assumptions G_lower_lin_is.
+
+(* float-level "LowerBound is non-decreasing": approximateInverseLog is monotone in t (the case where
+   the significand rounds up to 2 is continuous with the next binade since the repair) ... *)
+Theorem G_lower_lin_mono (L : libm) (t t' : f64) :
+  finite t -> finite t' -> (val t <= val t')%R ->
+  finite (l_floor L t) -> val (l_floor L t) = IZR (Zfloor (val t)) ->
+  finite (l_floor L t') -> val (l_floor L t') = IZR (Zfloor (val t')) ->
+  -1022 <= Zfloor (val t) -> Zfloor (val t') <= 1023 ->
+  (val (approx_inverse_log L MLin t) <= val (approx_inverse_log L MLin t'))%R.
+Proof. exact (approx_inverse_log_lin_mono L t t'). Qed.
+Print Assumptions G_lower_lin_mono.
+
+(* ... hence LowerBound(i) <= LowerBound(j) for i <= j, positive multiplier, finite arguments of
+   approximateInverseLog, exact floors there, floors within [-1022, 1023] *)
+Theorem G_lower_lin_index_mono (L : libm) (m : gmap) (i j : Z) :
+  gm_kind m = MLin -> Z.abs i <= 2 ^ 53 -> Z.abs j <= 2 ^ 53 -> i <= j ->
+  finite (gm_off m) -> (0 < val (gm_mult m))%R ->
+  let ti := fdiv (fsub (f_of_int i) (gm_off m)) (gm_mult m) in
+  let tj := fdiv (fsub (f_of_int j) (gm_off m)) (gm_mult m) in
+  finite ti -> finite tj ->
+  finite (l_floor L ti) -> val (l_floor L ti) = IZR (Zfloor (val ti)) ->
+  finite (l_floor L tj) -> val (l_floor L tj) = IZR (Zfloor (val tj)) ->
+  -1022 <= Zfloor (val ti) -> Zfloor (val tj) <= 1023 ->
+  (val (gm_lower L m i) <= val (gm_lower L m j))%R.
+Proof. exact (gm_lower_lin_mono L m i j). Qed.
+Print Assumptions G_lower_lin_index_mono.
+
+(* refutation witness for the code BEFORE the repair (commit 0e8266b): there is an oracle with an exact
+   floor and a finite t (t = -2^-60, floor -1) at which the unrepaired approximateInverseLog,
+   buildFloat64_raw (int (floor t)) (t - floor t + 1), returns 1/2, whereas 2^floor t * significand
+   = 2^-1 * 2 = 1, which is what the repaired function returns *)
+Theorem G_lower_lin_unrepaired_refuted :
+  exists (L : libm) (t : f64),
+    finite t /\ finite (l_floor L t) /\ val (l_floor L t) = IZR (Zfloor (val t)) /\
+    Zfloor (val t) = -1 /\
+    val (build_float64_raw (int_of_f (l_floor L t)) (fadd (fsub t (l_floor L t)) f64_one)) = (/ 2)%R /\
+    val (approx_inverse_log L MLin t) = 1%R.
+Proof. exact lower_lin_unrepaired_witness. Qed.
+Print Assumptions G_lower_lin_unrepaired_refuted.
 
 (* ------------------------------------------------------------------ *)
 (* examples, computed on the model (floats are given by their bit patterns)
@@ -378,11 +460,24 @@ Example G_ex_lin_index (L : libm) :
 Proof. vm_compute. reflexivity. Qed.
 
 (* approximateInverseLog (linear) at t = -2^-60 with the correct floor -1.0: t - (-1) rounds to 1,
-   + 1 = 2.0, whose fraction bits are zero: the result is 0.5, not a value next to 1 *)
+   + 1 = 2.0, whose fraction bits are zero: the code before the repair returned 0.5, the repaired
+   buildFloat64 returns 1.0 = 2^-1 * 2 *)
 Example G_ex_lower_tiny_negative (L : libm) :
   l_floor L (fb 13560338478012563456) = fb 13830554455654793216 ->
-  bits_of_f64 (approx_inverse_log L MLin (fb 13560338478012563456)) = 4602678819172646912%N.  (* 0.5 *)
-Proof. intros H. unfold approx_inverse_log. rewrite H. vm_compute. reflexivity. Qed.
+  bits_of_f64 (approx_inverse_log L MLin (fb 13560338478012563456)) = 4607182418800017408%N /\  (* 1.0 *)
+  bits_of_f64 (build_float64_raw (int_of_f (fb 13830554455654793216))
+                 (fadd (fsub (fb 13560338478012563456) (fb 13830554455654793216)) f64_one))
+    = 4602678819172646912%N.                                                                  (* 0.5 *)
+Proof. intros H. unfold approx_inverse_log. rewrite H. vm_compute. split; reflexivity. Qed.
+
+(* buildFloat64 at the significand 2.0 (0x4000000000000000), 3.0 and just below 2 *)
+Example G_ex_build_float64_two :
+  bits_of_f64 (build_float64 (-1) c_two) = 4607182418800017408%N /\                 (* 1.0 *)
+  bits_of_f64 (build_float64_raw (-1) c_two) = 4602678819172646912%N /\             (* 0.5 *)
+  bits_of_f64 (build_float64 0 (fb 4613937818241073152)) = 4613937818241073152%N /\ (* 3.0 -> 3.0 *)
+  bits_of_f64 (build_float64 1 (fb 4611686018427387903)) = 4616189618054758399%N /\ (* (2 - 2^-52) * 2 *)
+  build_float64 1023 c_two = f64_pinf /\ build_float64 1024 f64_one = f64_pinf.
+Proof. vm_compute. repeat split; reflexivity. Qed.
 
 (* ... while at t = 0 (floor 0.0) it is 1.0 *)
 Example G_ex_lower_zero (L : libm) :
